@@ -35,10 +35,10 @@ type refVar struct {
 }
 
 type refTemplate struct {
-	raw   string
-	segs  []refSeg
-	vars  []refVar
-	verb  string
+	raw        string
+	segs       []refSeg
+	vars       []refVar
+	verb       string
 	allLiteral bool
 }
 
